@@ -75,7 +75,10 @@ type cliConn struct {
 	rest     []byte // partial frame left over from the previous step
 	hdec     *hpack.Decoder
 	fields   []hpack.HeaderField
-	state    string // "" alive, "dead", "stuck", "hs-err"
+	blockErr bool     // a fragment of the header block in progress could not be decoded
+	openBlk  uint32   // stream of the header block the client is in the middle of writing (0: none), in wire order
+	hbi      []string // frames seen between a HEADERS without END_HEADERS and the end of its block: "<stream>:t<type>"
+	state    string   // "" alive, "dead", "stuck", "hs-err"
 	preface  bool
 	bySid    map[uint32]*cliReq
 	poolSeen int
@@ -290,6 +293,16 @@ func (cc *cliConn) collect() (toks []tok) {
 	frames, rest := parseFrames(b)
 	cc.rest = rest
 	for _, f := range frames {
+		// wire order (the tokens are sorted by stream afterwards): nothing may come between the frames of a header block
+		if cc.openBlk != 0 && !(f.typ == 9 && f.stream == cc.openBlk) {
+			cc.hbi = append(cc.hbi, fmt.Sprintf("%d:t%d", cc.openBlk, f.typ))
+		}
+		if f.typ == 1 || (f.typ == 9 && f.stream == cc.openBlk) {
+			cc.openBlk = 0
+			if f.flags&4 == 0 {
+				cc.openBlk = f.stream
+			}
+		}
 		toks = append(toks, cc.frameTok(f))
 	}
 	return toks
@@ -328,6 +341,7 @@ func (cc *cliConn) frameTok(f rawFrame) tok {
 			p = p[5:]
 		}
 		cc.fields = cc.fields[:0]
+		cc.blockErr = false
 		// RFC 7541 4.2 allows two dynamic table size updates at the start of a block: the smallest size since
 		// the last block, then the final one. x/net's decoder (v0.56.0 hpack.go:276) takes the first update for
 		// "the first field" and refuses a second one unless its table is empty, so each leading update (two at
@@ -342,29 +356,9 @@ func (cc *cliConn) frameTok(f rawFrame) tok {
 			}
 			p = p[n:]
 		}
-		_, err := cc.hdec.Write(p)
-		if err == nil && f.flags&0x4 != 0 {
-			err = cc.hdec.Close()
-		}
-		var head, tail []string
-		for i, hf := range cc.fields {
-			s := hexOrDash([]byte(hf.Name)) + "=" + hexOrDash([]byte(hf.Value))
-			if i < 5 {
-				head = append(head, s)
-			} else {
-				tail = append(tail, s)
-			}
-		}
-		sort.Strings(tail)
-		st := "ok"
-		if err != nil {
-			st = "hpack-err"
-		}
-		extra := fmt.Sprintf(":len=%d", len(f.payload))
-		if err != nil {
-			extra += ":" + strings.ReplaceAll(err.Error(), " ", "_") + ":" + hexOrDash(f.payload[:minInt(len(f.payload), 16)])
-		}
-		return mk(fmt.Sprintf("H%d:%d:%d:%s:%s", f.stream, f.flags&1, (f.flags>>2)&1, st, strings.Join(append(head, tail...), ",")), extra)
+		return cc.blockTok(f, p, mk)
+	case 9: // CONTINUATION: the client's writeHeaderBlock cuts a long request header block
+		return cc.blockTok(f, f.payload, mk)
 	case 3:
 		if len(f.payload) == 4 {
 			return mk(fmt.Sprintf("R%d:%d", f.stream, be32(f.payload)), "")
@@ -394,6 +388,43 @@ func (cc *cliConn) frameTok(f rawFrame) tok {
 		}
 	}
 	return mk(fmt.Sprintf("F%d:%d:%d:%s", f.stream, f.typ, f.flags, hexOrDash(f.payload)), "")
+}
+
+// blockTok feeds one fragment of a request header block to the scripted server's decoder. The decoded field list is
+// printed on the frame that carries END_HEADERS (HEADERS or CONTINUATION); the frames before it print none.
+func (cc *cliConn) blockTok(f rawFrame, p []byte, mk func(cmp, extra string) tok) tok {
+	eh := (f.flags >> 2) & 1
+	_, err := cc.hdec.Write(p)
+	if err == nil && eh != 0 {
+		err = cc.hdec.Close()
+	}
+	if err != nil {
+		cc.blockErr = true
+	}
+	var head, tail []string
+	if eh != 0 {
+		for i, hf := range cc.fields {
+			s := hexOrDash([]byte(hf.Name)) + "=" + hexOrDash([]byte(hf.Value))
+			if i < 5 {
+				head = append(head, s)
+			} else {
+				tail = append(tail, s)
+			}
+		}
+		sort.Strings(tail)
+	}
+	st := "ok"
+	if err != nil || (eh != 0 && cc.blockErr) {
+		st = "hpack-err"
+	}
+	extra := fmt.Sprintf(":len=%d", len(f.payload))
+	if err != nil {
+		extra += ":" + strings.ReplaceAll(err.Error(), " ", "_") + ":" + hexOrDash(f.payload[:minInt(len(f.payload), 16)])
+	}
+	if f.typ == 9 {
+		return mk(fmt.Sprintf("C%d:%d:%s:%s", f.stream, eh, st, strings.Join(append(head, tail...), ",")), extra)
+	}
+	return mk(fmt.Sprintf("H%d:%d:%d:%s:%s", f.stream, f.flags&1, eh, st, strings.Join(append(head, tail...), ",")), extra)
 }
 
 func minInt(a, b int) int {
@@ -449,6 +480,10 @@ func (cc *cliConn) finishStep(prefix string) string {
 	if n := cc.nc.failed.Load(); n > cc.failSeen {
 		all += fmt.Sprintf(" wfail=%d", n-cc.failSeen)
 		cc.failSeen = n
+	}
+	if len(cc.hbi) > 0 {
+		all += " hbi=" + strings.Join(cc.hbi, ",")
+		cc.hbi = nil
 	}
 	if q == "stuck" {
 		cc.state = "stuck"
@@ -631,6 +666,21 @@ func (r *runner) runCli(f []string) string {
 			cc.bySid[sid] = q
 		}
 		return "race ## " + cc.raceDiag()
+	case "reqnow": // Write on a goroutine, not waited for: the next ops overlap with it
+		q, bad := cc.buildReq(f[3:])
+		if bad != "" {
+			return bad
+		}
+		go cc.c.Write(q.ctx)
+		return "race ## started"
+	case "feed": // octets for the read loop, not waited for
+		b, ok := unhex(f[3])
+		if !ok {
+			return "bad-op"
+		}
+		cc.noteServerSettings(b)
+		cc.mc.in.write(b)
+		return "race ## fed"
 	case "closego":
 		go func() { _ = cc.c.Close() }()
 		settle()
@@ -723,6 +773,10 @@ func (cc *cliConn) raceDiag() string {
 	}
 	if len(d) == 0 {
 		d = []string{"-"}
+	}
+	if len(cc.hbi) > 0 {
+		d = append(d, "hbi="+strings.Join(cc.hbi, ","))
+		cc.hbi = nil
 	}
 	return strings.Join(d, " ") + " ready=" + cc.ready()
 }
